@@ -87,7 +87,8 @@ pub struct Expander {
     pub rule: NoexpandRule,
     pub trim: TrimRule,
     /// how often a `dont_expand` marker that was created while `\noexpand` was expanded on
-    /// behalf of `\expandafter` later made the main loop treat a token as `\relax`
+    /// behalf of `\expandafter` later suppressed an expansion (made the main loop, or a further
+    /// `\expandafter`, treat the token as `\relax`)
     pub marker_mattered: u64,
     /// deepest recursion of `\expandafter` inside `\expandafter`
     pub max_xa_depth: u32,
@@ -209,6 +210,10 @@ impl Expander {
                 if flag == FLAG_NONE && self.is_expandable(&second) {
                     self.expand(second, Ctx::ExpandAfter, xa_depth + 1)?;
                 } else {
+                    if flag == FLAG_XA {
+                        // the marker has just suppressed this \expandafter's one expansion
+                        self.marker_mattered += 1;
+                    }
                     self.back(second, FLAG_NONE);
                 }
                 self.back(first, FLAG_NONE);
